@@ -134,7 +134,7 @@ var setterValues = [][]string{
 	{"", "x", "1.2.3.4", "[::1]", "x/y", "x:9"},                    // hostname
 	{"", "0", "8", "80", "443", "65536", "8x"},                     // port
 	{"", "/", "x", "//x", "/..", "C|", "?"},                        // pathname
-	{"", "?", "a=1", "?a b"},                                       // search
+	{"", "?", "a=1", "?a b", "a='b"},                               // search
 	{"", "#", "f"},                                                 // hash
 }
 
